@@ -267,10 +267,7 @@ fn scenario(r: &mut Report, seed: u64, k: u64) {
         plans.push(ClientPlan { steps, graceful, leaves_early: graceful && rng.chance(1, 4) });
     }
     // apps
-    let port = {
-        let l = TcpListener::bind("127.0.0.1:0").unwrap();
-        l.local_addr().unwrap().port()
-    };
+    let port = hvcommon::net::free_port("127.0.0.1");
     let addr: SocketAddr = format!("127.0.0.1:{}", port).parse().unwrap();
     let state = Arc::new(St { log: Mutex::new(Vec::new()) });
     let (ws_tx, ws_rx) = channel();
@@ -536,10 +533,7 @@ fn bulk_scenario(r: &mut Report, seed: u64, k: u64) {
     let poll: Option<Duration> = *rng.pick(&[None, Some(Duration::from_millis(1)), Some(Duration::from_millis(10))]);
     let handlers = rng.urange(1, 4);
     let replay = vec!["c12".to_string(), "--seed".into(), seed.to_string(), "--bulk".into(), k.to_string()];
-    let port = {
-        let l = TcpListener::bind("127.0.0.1:0").unwrap();
-        l.local_addr().unwrap().port()
-    };
+    let port = hvcommon::net::free_port("127.0.0.1");
     let addr: SocketAddr = format!("127.0.0.1:{}", port).parse().unwrap();
     let state = Arc::new(St { log: Mutex::new(Vec::new()) });
     let (ws_tx, ws_rx) = channel();
